@@ -134,6 +134,16 @@ def check(ctx):
         if not ok:
             ctx.violation("R-C04.2", f"register:{meth}", f"{meth} must store {flag} for the name in the innermost scope (self._scope_stack[-1][name] = {flag})", file=px.rel, function=f"CParser.{meth}")
     # ---- R-C04.3 ----------------------------------------------------------------
+    # names are registered when the declarator is complete: the builders that register them consume no token themselves (a body parsed inside
+    # a builder would be parsed before / after the registration it is meant to follow, in the wrong scope)
+    from .. import e1 as _e1
+    ex_, _g = _e1.get()
+    for b in ("_build_declarations", "_build_function_definition", "_build_parameter_declaration", "_fix_decl_name_type", "_type_modify_decl", "_add_declaration_specifier"):
+        ok = b not in ex_.token_effect
+        ctx.oblige("R-C04.3", f"{b} consumes no token", ok)
+        if not ok:
+            ctx.violation("R-C04.3", f"builder-consumes:{b}", f"{b} (which registers the declared names) now consumes tokens itself: what it parses is parsed in a different order relative to the registration - e.g. a function body parsed inside "
+                          "_build_function_definition sees the function's own name registered in the body scope", file=px.rel, function=f"CParser.{b}")
     allm = set(WC.current()) | set(WC.load_ref())
     n = WCm.run_group(ctx, "R-C04.3", allm - WCm.HELPERS | {"_parse_enumerator"},
                       lambda label, field: (label in ("call:_add_identifier", "call:_add_typedef_name") and field == "name") or (label == "call:_build_declarations" and field == "typedef_namespace"),
@@ -145,11 +155,12 @@ def check(ctx):
     sel = [n for n in ast.walk(bd) if isinstance(n, ast.If) and isinstance(n.test, ast.Name) and any(isinstance(s, ast.Expr) and isinstance(s.value, ast.Call) and getattr(s.value.func, "attr", "") == "_add_typedef_name" for s in n.body)]
     flagname = sel[0].test.id if len(sel) == 1 else None
     isdef = [n for n in ast.walk(bd) if isinstance(n, ast.Assign) and any(isinstance(t, ast.Name) and t.id == flagname for t in n.targets)]
-    ok = (len(sel) == 1 and any(isinstance(c, ast.Call) and getattr(c.func, "attr", "") == "_add_identifier" for s in sel[0].orelse for c in ast.walk(s))
+    ok = (len(sel) == 1 and any(isinstance(s, ast.Expr) and isinstance(s.value, ast.Call) and getattr(s.value.func, "attr", "") == "_add_identifier" for s in sel[0].orelse)
           and len(isdef) == 1 and S.unparse(isdef[0].value) == f"'typedef' in {bd.args.args[1].arg}['storage']")
-    ctx.oblige("R-C04.3", "typedef vs identifier chosen by 'typedef' in spec['storage']", ok)
+    ctx.oblige("R-C04.3", "typedef vs identifier chosen by 'typedef' in spec['storage'] alone: every other declared name is registered as an ordinary identifier, unconditionally", ok)
     if not ok:
-        ctx.violation("R-C04.3", "typedef-choice", "_build_declarations must register a name as typedef exactly when 'typedef' is among the storage-class specifiers, and as ordinary identifier otherwise", file=px.rel, function="CParser._build_declarations")
+        ctx.violation("R-C04.3", "typedef-choice", "_build_declarations must register a name as typedef exactly when 'typedef' is among the storage-class specifiers, and as ordinary identifier otherwise - unconditionally: a declaration that "
+                      "is skipped (by storage class, kind of declarator, ...) does not hide an outer typedef of the same name", file=px.rel, function="CParser._build_declarations")
     # parameters of a function definition: registered iff a body follows; only the ellipsis may stop the loop
     fd = px.method("CParser", "_parse_function_decl")
     guards = [n for n in ast.walk(fd) if isinstance(n, ast.If) and "LBRACE" in S.unparse(n.test) and any(isinstance(c, ast.Call) and getattr(c.func, "attr", "") == "_add_identifier" for c in ast.walk(n))]
